@@ -149,6 +149,23 @@ def run_module(spec, res):
             close(res, f"{name}.gammadown3 analytical=True/False", tbucket, got, want, 1e-12)
         except TypeError:
             pass
+    # ---- integer-valued coordinates stored with an integer dtype
+    if name != 'Schwarzschild_isotropic':
+        xi, yi, zi = (np.rint(v).astype(np.int64) for v in (x, y, z))
+        xf, yf, zf = (v.astype(float) for v in (xi, yi, zi))
+        for fn in ('gammadown3', 'Kdown3', 'gdown4'):
+            if hasattr(M, fn):
+                res['observations'] += 1
+                try:
+                    a = np.asarray(getattr(M, fn)(t0, xi, yi, zi), float)
+                    b = np.asarray(getattr(M, fn)(t0, xf, yf, zf), float)
+                    ok = a.shape == b.shape and np.allclose(a, b, rtol=1e-12, atol=0)
+                except Exception:
+                    ok = False
+                if not ok:
+                    common.add_violation(res, f"{name}.{fn} differs for integer-dtype coordinates", {})
+                else:
+                    res['nontrivial'].append([f"{name}.{fn} int coords", tbucket])
     # ---- extrinsic curvature
     Kscale = max(np.abs(ex['Kdown3']).max(), np.abs(ex['st_Gamma_udd4']).max() * np.abs(ex['gammadown3']).max())
     close(res, f"{name}.Kdown3", tbucket, M.Kdown3(t0, x, y, z), ex['Kdown3'], tol, scale=Kscale)
